@@ -22,6 +22,7 @@
 (*   Daemon / Bind   the daemonset pod starts; the nominated pods bind      *)
 (*   Mark / Delete   marked for deletion in cluster state / deleted         *)
 (*   AddPod          another pending pod arrives                            *)
+(*   Restart         Karpenter restarts with empty cluster state            *)
 (*                                                                         *)
 (* Two layers, as in the code.  The MECHANISM is what state.Cluster         *)
 (* presents of an in-flight node at each lifecycle stage (View*: status     *)
@@ -280,6 +281,13 @@ Delete(c) ==
     /\ More /\ c \in Claims /\ Launched(c) /\ ~cl[c].deleting /\ ~cl[c].marked
     /\ cl' = [cl EXCEPT ![c] = [@ EXCEPT !.deleting = TRUE]] /\ Log(S1("Delete", c))
     /\ UNCHANGED <<sc, pst, bto, home, nc, ph, q, plc, opn, rem, sh, rounds, bad>>
+\* Karpenter restarts: cluster state forgets everything (what is launched has to be delivered again).  Not while a node is
+\* marked for deletion: the in-memory mark would be lost and a node that "is being deleted" would count again - that
+\* combination is outside the statements (C03 counts nodes that are not being deleted).
+Restart ==
+    /\ More /\ (\E c \in Claims : cl[c].known) /\ (\A c \in Claims : ~cl[c].marked)
+    /\ cl' = [c \in 1..MaxClaims |-> [cl[c] EXCEPT !.known = FALSE]] /\ Log(Stp("Restart", "-", FALSE, "-", 0, FALSE, FALSE, FALSE, "-"))
+    /\ UNCHANGED <<sc, pst, bto, home, nc, ph, q, plc, opn, rem, sh, rounds, bad>>
 AddPod ==
     /\ More /\ sc.later # 0 /\ pst["w3"] = "absent"
     /\ pst' = [pst EXCEPT !["w3"] = "pending"] /\ Log(Stp("AddPod", "-", FALSE, "-", 0, FALSE, FALSE, FALSE, "w3"))
@@ -291,7 +299,7 @@ Next ==
     \/ OpenNew \/ PassEnd
     \/ \E c \in 1..MaxClaims : (\E tn \in {"A", "B"}, o \in 0..1 : Launch(c, tn, o)) \/ (\E v \in AppearVariants : Appear(c, v))
                                \/ Register(c) \/ Partial(c) \/ Initialize(c) \/ Daemon(c) \/ Bind(c) \/ Mark(c) \/ Delete(c)
-    \/ AddPod
+    \/ AddPod \/ Restart
 Spec == Init /\ [][Next]_vars
 
 ----------------------------------------------------------------------------
